@@ -61,6 +61,11 @@ func Bases(quick bool) []*prog.Case {
 	cases = append(cases, famEnum(true)...)
 	cases = append(cases, famByValue(true)...)
 	cases = append(cases, famLoops(true)...)
+	for _, k := range famRef(true) {
+		if !quick || strings.Contains(k.ID, "/i32/") {
+			cases = append(cases, k)
+		}
+	}
 	if quick {
 		var thin []*prog.Case
 		nflow := 0
